@@ -16,6 +16,7 @@ use crate::trace::{self, C};
 use crate::tr;
 
 pub fn run() -> SimResult {
+    sched::set_step_hint(40);
     // swarm knob: spurious weak-CAS failure rate of this run (0 = never)
     match draw(4) {
         0 => sched::set_cas_rate(0, 1),
